@@ -18,10 +18,10 @@ ELEM_NOTE = ('trusted: content-model automata generated from the pinned XSD (Sch
 
 def elem(pid, what, sec):
     return dict(
-        technique='TLA+ spec (Element.tla clauses) + TLC three ways: ElementGen enumerates operation histories, harness replays them on the real library, ElementTrace judges every recorded step (trace validation); ' + what,
+        technique='TLA+ spec (Element.tla clauses) + TLC three ways: ElementGen enumerates operation histories (families uniform / words / perms / removal / afterfail / cover+pump / wordrem), the harness replays them on the real library, ElementTrace judges every recorded step incl. twin steps (trace validation); the repository\'s own 192 tests run under a recorder and are judged the same way; ' + what,
         level=('model_checking', 'Every operation history TLC enumerates within the tier bounds (all 94 element-content types; add / forward add / remove / replace / xml_x dot set+unset / to_string with and without intelligent choice; '
                'valid words, permutations of uniquely arrangeable bags, removal probes; both xsd_check values) is executed on the working tree and each recorded step is validated by TLC against the clauses of Element.tla; '
-               'the verdict for this property is the set of failing ' + pid + ' clauses. Exhaustive within the bounds, nothing beyond them.', sec),
+               'the verdict for this property is the set of failing ' + pid + ' clauses. Element classes without element content are driven too (a checked one must refuse every child, an unchecked one accepts any). Exhaustive within the bounds, nothing beyond them.', sec),
         note=ELEM_NOTE, thorough=True)
 
 
@@ -29,7 +29,7 @@ CHECKS.update({
  'C01': elem('C01', 'clause C01_word: Accepts(CM[type], children in schema order) at every successful to_string; C01_text ties the projection to the emitted text', 'DESIGN.md 3.3, 6 C01'),
  'C02': elem('C02', 'clauses C02_accept (viable prefix of a valid word is accepted) and C02_final (valid word passes the final check and keeps its order)', 'DESIGN.md 3.3, 6 C02'),
  'C06': elem('C06', 'clauses C06_add/remove/replace/out: both views are permutations of each other and equal the operated children; parent links', 'DESIGN.md 3.3, 6 C06'),
- 'C07': elem('C07', 'clause C07_ext: after every accepted add/replace the bag of children is completable (Ext on the automaton)', 'DESIGN.md 3.3, 6 C07'),
+ 'C07': elem('C07', 'clause C07_ext: after every accepted add/replace the bag of children is completable (Ext on the automaton); plus ElementMC.tla model-checked by TLC: the clause set as a state machine over the real automata (Inv_Ext invariant and closed under remove/replace, Inv_Complete, every call always has an outcome no clause forbids)', 'DESIGN.md 0.2, 3.3, 6 C07'),
  'C10': elem('C10', 'clauses C10_frame (projection unchanged by a raising call) and C10_future (every continuation behaves as in the twin history without the failed call)', 'DESIGN.md 3.3, 4.4, 6 C10'),
  'C11': elem('C11', 'clauses C11_obs / C11_state: every continuation after a removal behaves as on the twin built from the remaining children', 'DESIGN.md 3.3, 4.4, 6 C11'),
  'C12': elem('C12', 'clauses C12_reject (a rejected child was not completable) and C12_unique (uniquely arrangeable bags serialise in that arrangement, same names in insertion order)', 'DESIGN.md 3.3, 6 C12'),
